@@ -730,6 +730,58 @@ def gen_store_groups(tier, rng):
     return cases
 
 
+# ----------------------------------------------------------------- stream `store-empty` (implementation only)
+# An option given WITHOUT a value (num_args(0..), no default_missing_value) is present and holds an empty occurrence.  The
+# typed accessors must still check the requested type against the argument's parser: the wrong type fails with Downcast
+# (get_one and get_many alike), the right type sees no value (seeded change seed4/C04-2 deferred the check to the first
+# stored value, so it never happened for an empty occurrence).
+def gen_store_empty(tier, rng):
+    cases = []
+    types = ["u8", "string", "bool", "i64", "u16"]
+    for _ in range(300 if tier == "quick" else 6000):
+        ids = rng.sample(["a", "b", "c", "d"], rng.choice([1, 2, 3]))
+        decls = []
+        for i in ids:
+            t = rng.choice(types)
+            if rng.random() < 0.6:
+                decls.append((i, t, None))
+            else:
+                pool = VAL_POOL.get(t, [b"1", b"7", b"0", b"100"])
+                decls.append((i, t, [rng.choice(pool) for _ in range(rng.choice([1, 2]))]))
+        ops = []
+        for _ in range(rng.choice([1, 2, 3, 5])):
+            i, t, _v = rng.choice(decls)
+            ops.append("(%s %s %s)" % (rng.choice(["get_one", "get_many"]), hexs(i.encode()), t if rng.random() < 0.4 else rng.choice(types)))
+        cases.append("(store debug (%s) (%s))" % (
+            " ".join("(%s %s%s)" % (hexs(i.encode()), t, " bare" if vals is None else "".join(" " + hexs(x) for x in vals))
+                     for i, t, vals in decls), " ".join(ops)))
+    return cases
+
+
+def store_empty_oracle(case, impl):
+    v = sx_parse(case)
+    decls, ops = v[2], v[3]
+    ty = {unhex(d[0]): d[1] for d in decls}
+    bare = {unhex(d[0]) for d in decls if len(d) == 3 and d[2] == "bare"}
+    m = re.match(r"ops=\((.*)\) final=\((.*)\)\Z", impl)
+    if not m:
+        return "unexpected outcome %s" % impl[:200]
+    outs = sx_parse("(" + m.group(1) + ")")
+    if "panic" in outs or len(outs) != len(ops):
+        return "a typed access panicked / the history stopped early: %s" % m.group(1)[:300]
+    for op, got in zip(ops, outs):
+        i, t = unhex(op[1]), op[2]
+        if t != ty[i]:
+            if got != ["err", "downcast", ty[i], t]:
+                return "%s on an argument of type %s (%s) must fail with Downcast, got %s" % (
+                    op, ty[i], "present with an empty occurrence" if i in bare else "present", got)
+        elif i in bare:
+            want = "none" if op[0] == "get_one" else ["many"]
+            if got != want:
+                return "%s on a present argument without values: expected %s, got %s" % (op, want, got)
+    return None
+
+
 def store_groups_oracle(case, impl):
     v = sx_parse(case)
     decls, ops, groups = v[2], v[3], v[4]
@@ -1097,6 +1149,8 @@ def streams(tier, rng):
         Stream("store", gen_store(tier, rng), oracle=store_oracle, area="value", nontrivial=store_nontrivial),
         Stream("store-groups", gen_store_groups(tier, rng), oracle=store_groups_oracle, area=None,
                nontrivial=lambda c, r: "(err " in (r or "")),
+        Stream("store-empty", gen_store_empty(tier, rng), oracle=store_empty_oracle, area=None,
+               nontrivial=lambda c, r: "downcast" in (r or "")),
         Stream("stored", gen_stored(tier, rng), oracle=stored_oracle, area="parse", project=stored_project,
                nontrivial=make_stored_nontrivial(d_stored), describe=d_stored),
         Stream("stored_wide", gen_stored_wide(tier, rng), oracle=stored_wide_oracle, area="parse", project=stored_wide_project,
